@@ -245,10 +245,19 @@ impl<'a> TraceGen<'a> {
         }
     }
     fn frame_line(&self, rng: &mut Rng) -> String {
+        let l = self.frame_line0(rng);
+        if rng.pct(4) {
+            return format!("{}{}", l, rng.pick(&["\u{1e}", "\u{1c}", "\u{200b}", "\u{a0}", " ", "\t", "\u{1f}\u{1f}"]));
+        }
+        l
+    }
+    fn frame_line0(&self, rng: &mut Rng) -> String {
         let c = self.class(rng);
         let m = self.method_for(rng, &c);
         // (`str::trim` strips every White_Space code point, not only ASCII blanks)
-        let indent = rng.pick(&["    ", "\t", "  ", "", "        ", "    ", "\t", "\u{a0}", "\u{2003}", "\u{3000} ", "\u{b}", "\u{85}\t", "\u{2028}"]);
+        let indent = rng.pick(&["    ", "\t", "  ", "", "        ", "    ", "\t", "\u{a0}", "\u{2003}", "\u{3000} ", "\u{b}", "\u{85}\t", "\u{2028}",
+            // characters Java calls white space but Unicode / Rust do not, and format characters
+            "\u{1c}", "\u{1e}    ", "\u{1f}", "\u{200b}", "\u{feff}    "]);
         match rng.below(12) {
             0 => format!("{}at {}.{}(Native Method)", indent, c, m),
             1 => format!("{}at {}.{}(Unknown Source)", indent, c, m),
@@ -267,9 +276,9 @@ impl<'a> TraceGen<'a> {
                     6 => format!("{}{}", l, rng.pick(&["\u{b2}", "\u{660}", "L", ".0"])),
                     _ => format!("+0{}", l),
                 };
-                format!("{}at {}.{}({}:{})", indent, c, m, rng.pick(&["SourceFile", "Main(1).java", "a(b", "x)y", "(", "F.java"]), num)
+                format!("{}at {}.{}({}:{})", indent, c, m, rng.pick(&["SourceFile", "Main(1).java", "a(b", "x)y", "(", "F.java", "R8$$SyntheticClass", "D8$$SyntheticClass"]), num)
             }
-            _ => format!("{}at {}.{}({}:{})", indent, c, m, rng.pick(&["SourceFile", "Foo.java", "<unknown>", "a b", "Main(1).java", "a(b", "", "F"]), self.line(rng)),
+            _ => format!("{}at {}.{}({}:{})", indent, c, m, rng.pick(&["SourceFile", "Foo.java", "<unknown>", "a b", "Main(1).java", "a(b", "", "F", "R8$$SyntheticClass"]), self.line(rng)),
         }
     }
     /// free-form trace text
@@ -738,6 +747,7 @@ pub fn gen_c02(rng: &mut Rng, tier: &str, out: &mut Out) {
 
 pub fn gen_c03(rng: &mut Rng, tier: &str, out: &mut Out) {
     let th = thorough(tier);
+    congruent_range_ops(out);
     let n = if th { 10000 } else { 640 };
     for _ in 0..n {
         let mut cfg = Cfg::domain();
@@ -760,6 +770,22 @@ pub fn gen_c03(rng: &mut Rng, tier: &str, out: &mut Out) {
     out.d(format!("FRP {} {} {}", hxs("b"), hxs("k"), hxs("int")));
     out.d(format!("FRP {} {} {}", hxs("a"), hxs("n"), hxs("int")));
     out.d(format!("FRP {} {} {}", hxs("a"), hxs("m"), hxs("")));
+}
+
+/// neighbouring entries whose ranges differ but are congruent modulo 2^32 (and 2^16): they are
+/// different ranges, so neither is an inlined callee of the other
+pub fn congruent_range_ops(out: &mut Out) {
+    for (d, tag) in [(1u64 << 32, "2^32"), (1u64 << 16, "2^16"), (1u64 << 33, "2^33")] {
+        let t = format!("o.A -> a:\n    1:5:void first():10 -> m\n    {}:{}:void second():20 -> m\n    7:7:void third() -> m\n", 1 + d, 5 + d);
+        map_op(out, true, t.as_bytes());
+        out.d("WRITE".into());
+        out.d(format!("FRP {} {} {}", hxs("a"), hxs("m"), hxs("")));
+        out.d(format!("MTH {} {}", hxs("a"), hxs("m")));
+        for l in [0u64, 1, 3, 5, 1 + d, 3 + d] {
+            out.d(format!("FRL {} {} {} -", hxs("a"), hxs("m"), l));
+        }
+        out.count(&format!("congruent_ranges_{}", tag));
+    }
 }
 
 pub fn gen_c04(rng: &mut Rng, tier: &str, out: &mut Out) {
@@ -1185,6 +1211,7 @@ pub fn gen_c08(rng: &mut Rng, tier: &str, out: &mut Out) {
 
 pub fn gen_c09(rng: &mut Rng, tier: &str, out: &mut Out) {
     let th = thorough(tier);
+    congruent_range_ops(out);
     let n = if th { 16000 } else { 1600 };
     for i in 0..n {
         let mut cfg = Cfg::domain();
